@@ -54,7 +54,4 @@ def addLoop (x s : Int) : Int :=
 termination_by (-x).toNat
 decreasing_by omega
 
-/-- `for (i = 0; i < n; ++i) if (p i) { ...; break; }` runs its body iff some `i < n` satisfies `p` -/
-def anyBelow (n : Int) (p : Nat → Bool) : Bool := (List.range n.toNat).any p
-
 end Pixman.CSem
